@@ -310,6 +310,13 @@ func Coordinate(o CoordOpts) int {
 	if o.Tier == "thorough" {
 		watchdog = 120 * time.Minute
 	}
+	// all workers put their scratch databases below one directory that the coordinator removes, whatever happens to them
+	scratchRoot, err := os.MkdirTemp(ScratchBase(), "vcheck-run-"+o.Prop+"-")
+	if err == nil {
+		defer os.RemoveAll(scratchRoot)
+	} else {
+		scratchRoot = ScratchBase()
+	}
 	sem := make(chan struct{}, o.Jobs)
 	var wg sync.WaitGroup
 	for _, j := range jobs {
@@ -333,7 +340,7 @@ func Coordinate(o CoordOpts) int {
 			lf, _ := os.Create(j.logf)
 			j.cmd.Stdout = lf
 			j.cmd.Stderr = lf
-			j.cmd.Env = append(os.Environ(), "VERIF_WORKDIR="+o.WorkDir)
+			j.cmd.Env = append(os.Environ(), "VERIF_WORKDIR="+o.WorkDir, "VERIF_SCRATCH="+scratchRoot)
 			if j.race {
 				j.cmd.Env = append(j.cmd.Env, "GORACE=halt_on_error=0 log_path="+filepath.Join(o.WorkDir, fmt.Sprintf("race.%d", j.shard)))
 			}
